@@ -63,6 +63,9 @@ func NewByteBuffer() *ByteBuffer {
 //
 // This call grows the write area by at least `n` bytes. This might allocate.
 func (b *ByteBuffer) Reserve(n int) {
+	if n <= 0 {
+		return
+	}
 	existing := cap(b.data) - b.wi
 	if need := n - existing; need > 0 {
 		b.data = b.data[:cap(b.data)]
